@@ -252,8 +252,12 @@ def case_strategy(draw, max_ops=15):
     if draw(st.sampled_from([False] * 6 + [True])):
         alarms.insert(draw(st.integers(0, len(alarms))), dict(TEXT_ALARM))
     n = draw(st.integers(1, max_ops))
+    focus = draw(st.sampled_from(AL_KNOWN))  # alarm ops mostly work on one alarm: enable -> set -> clear chains
+    on_focus = st.sampled_from([True, True, False])
     ops = []
-    for _ in range(n):
+    if draw(st.sampled_from([True, False, False])):
+        ops.append({"op": "s5f3", "en": True, "id": _idspec(draw, [focus])})
+    for _ in range(n - len(ops)):
         k = draw(st.sampled_from(OPS))
         op = {"op": k}
         if k in ("s1f3", "s1f11"):
@@ -269,11 +273,11 @@ def case_strategy(draw, max_ops=15):
             op["pairs"] = pairs
         elif k == "s5f3":
             op["en"] = draw(st.sampled_from([True, True, False]))
-            op["id"] = _idspec(draw, AL_IDS)
+            op["id"] = _idspec(draw, [focus] if draw(on_focus) else AL_IDS)
         elif k == "s5f5":
             op["ids"] = _idlist(draw, AL_IDS if draw(st.booleans()) else AL_KNOWN)
         elif k in ("set_alarm", "clear_alarm"):
-            op["id"] = draw(st.sampled_from(AL_PY_IDS))
+            op["id"] = focus if draw(on_focus) else draw(st.sampled_from(AL_PY_IDS))
         elif k == "sv_update":
             d = draw(st.sampled_from(SV_DEFS))
             op["id"], op["value"] = d["id"], _sv_value(draw, d["type"])
@@ -310,6 +314,7 @@ def handler_cls():
             super().__init__(settings)
             self.cb_sv = {}
             self.cb_ec = {}
+            self.rejected_alarms = []
             for d in setup["svs"]:
                 self.status_variables.update({d["id"]: secsgem.gem.StatusVariable(d["id"], d["name"], d["unit"], types[d["type"]], d["cb"])})
                 if d["cb"]:
@@ -329,7 +334,14 @@ def handler_cls():
                         d["ce_off"]: secsgem.gem.CollectionEvent(d["ce_off"], d["name"] + " clear", []),
                     }
                 )
-                self.alarms.update({d["id"]: secsgem.gem.Alarm(d["id"], d["name"], d["text"], d["code"], d["ce_on"], d["ce_off"])})
+                try:
+                    alarm = secsgem.gem.Alarm(d["id"], d["name"], d["text"], d["code"], d["ce_on"], d["ce_off"])
+                except (TypeError, ValueError):
+                    if not isinstance(d["id"], str):
+                        raise
+                    self.rejected_alarms.append(d["id"])  # an API that refuses text ALIDs (E5: integers only) is fine
+                    continue
+                self.alarms.update({d["id"]: alarm})
 
         def on_sv_value_request(self, svid, sv):
             return sv.value_type(self.cb_sv[sv.svid])
@@ -392,6 +404,9 @@ def _run_case(case, stats):
         h = rig.h
         if not rig.establish():
             return Failure("setup-failed", case, f"{rig.comm_state()} {sim.blocked_report()}", "COMMUNICATING")
+        for alid in h.rejected_alarms:
+            del m.al[T.key_of_py(alid)]
+            cls.add("setup:text-alarm-rejected-by-api")
         cur = [-1]
 
         def fail(bucket, obs, exp):
@@ -436,14 +451,15 @@ def _run_case(case, stats):
         if err:
             fail("setup:predefined-constants", err, "S2F30/S2F14 for ECID 1, 2")
 
-        def probe_constants(what, wild_bucket):
-            body = ask(2, 13, ("L", []), what)
+        def probe_constants(what, wild_bucket, root_cause=None):
+            """S2F13 for all constants against the model; root_cause: bucket that explains any disagreement here."""
+            body = ask(2, 13, ("L", []), root_cause or what)
             if body == "abort":
                 pending = [k for k, d in m.ec.items() if d["value"] is T.WILD]
-                fail(wild_bucket if pending else f"{what}:abort", "S2F0", [m.ec_matcher(k) for k in m.ec])
+                fail(root_cause or (wild_bucket if pending else f"{what}:abort"), "S2F0 to S2F13 after this S2F15", [m.ec_matcher(k) for k in m.ec])
             r = T.match_values(m.s2f14([]), body, m)
             if r:
-                fail(wild_bucket if r == "out-of-range-after-accepted-s2f15" else f"{what}:{r}", body, [m.ec_matcher(k) for k in m.ec])
+                fail(root_cause or (wild_bucket if r == "out-of-range-after-accepted-s2f15" else f"{what}:{r}"), body, [m.ec_matcher(k) for k in m.ec])
 
         enable_changed = set()
         for i, op in enumerate(ops):
@@ -506,7 +522,9 @@ def _run_case(case, stats):
                         fail(f"s2f15:eac:{'abort' if eac is None else eac}-instead-of-{'or'.join(str(c) for c in sorted(plan['eacs']))}", body, plan["eacs"])
                 # all-or-nothing + range: the equipment's complete constant table now
                 what = "s2f15:not-all-applied" if eac == 0 else "s2f15:applied-although-rejected"
-                probe_constants(what, "s2f15:ecv-of-other-kind-accepted:s2f13-aborts")
+                # a NaN that passed the validation can also blow up half way through the apply loop (int(nan) for the
+                # predefined constants): partial application / a poisoned table then has the same root cause
+                probe_constants(what, "s2f15:ecv-of-other-kind-accepted:s2f13-aborts", "s2f15:nan-ecv-accepted" if "nan" in v and eac != 0 else None)
             elif k == "s5f3":
                 key = T.key_of_item(id_item(op["id"]))
                 known = m.s5f3(key, op["en"])
